@@ -141,7 +141,7 @@ Datum(s, k) ==
             LET r == CASE Upper(d) = 72 -> 16 [] Upper(d) = 81 -> 8 [] OTHER -> 2
                 e == RunEnd(s, k + 2, CASE r = 16 -> "r16" [] r = 8 -> "r8" [] OTHER -> "r2")
             IN IF e = k + 2 THEN [r |-> M("nondecimal-without-digits"), next |-> e]
-               ELSE IF e - (k + 2) > 80 THEN [r |-> Unspec("nondecimal-size-limit"), next |-> e]
+               ELSE IF e - (k + 2) > 600 THEN [r |-> Unspec("nondecimal-size-limit"), next |-> e]
                ELSE LET v == RadixVal(s, k + 2, e, r, <<>>) IN                     \* value as decimal digits
                     IF Len(v) > 20 \/ (Len(v) = 20 /\ ~LexLess(v, TwoTo64)) THEN [r |-> Unspec("nondecimal-size-limit"), next |-> e]   \* needs more than 64 bits
                     ELSE [r |-> W(<<El("hex", k, 0, 0, 0, v)>>), next |-> e]
